@@ -180,7 +180,17 @@ def partner_sequences(part, country, tier):
                 if k == "ok":
                     lib.outcome(o.bban.validate_national_checksum)
                 part.count(("seq", pc, b))
-                part["evals"] += 5
+                part["evals"] += 6
+                # assembly for this country from the partner's BBAN *object*, national validation on
+                if k == "ok":
+                    k4, v4 = lib.outcome(lambda: str(lib.IBAN.from_bban(country, o.bban, validate_bban=True)))
+                    exp4 = nat.accept(country, b)
+                    if (k4 == "ok") is not exp4 and k4 != "foreign" or k4 == "foreign":
+                        part.violation(f"{country}:from_bban-with-BBAN-object-of-{'a partner country'}:"
+                                       + ("accepts-invalid" if k4 == "ok" else "rejects-valid" if k4 == "lib"
+                                          else "foreign-exception"),
+                                       {"kind": "c06seq", "country": country, "bban": b, "partner": pc,
+                                        "object": True}, "accept" if exp4 else "reject", (k4, v4))
                 status, sig, exp, obs = judge(country, b)
                 if status == "bad":
                     part.violation(sig + "-after-same-BBAN-text-in-partner-country",
@@ -279,6 +289,10 @@ def replay(case: dict) -> dict:
         k, o = lib.outcome(lib.IBAN, ptext)
         if k == "ok":
             lib.outcome(o.bban.validate_national_checksum)
+        if case.get("object") and k == "ok":
+            k4, v4 = lib.outcome(lambda: str(lib.IBAN.from_bban(case["country"], o.bban, validate_bban=True)))
+            exp4 = nat.accept(case["country"], case["bban"])
+            return {"ok": k4 != "foreign" and (k4 == "ok") is exp4, "expected": exp4, "observed": (k4, v4)}
         status, sig, exp, obs = judge(case["country"], case["bban"])
         return {"ok": status != "bad", "signature": sig, "expected": exp, "observed": obs}
     if case["kind"] == "c06bank":
